@@ -37,6 +37,30 @@ CHECKS = {
         "consumed<=supplied is demanded (consumed==spec size is a statistic).",
         "DESIGN.md section 3, C02",
     ),
+    "C03": (
+        "exploration",
+        "bounded-exhaustive relational comparison (round trip, all pairs of targets / option sets) on compiled generated code",
+        "The C01/C02 cases plus inexact float16 values around every kind of rounding tie are executed under every (target, option "
+        "set): C any/little/big x asserts, C++14/17/20, Python. Oracle is purely relational and independent of the reference "
+        "codec: des(ser(v)) == v for in-range values, ser(des(ser(v))) == ser(v), the deserializer accepts its own serializer's "
+        "output, and bytes / decoded values / error verdicts are equal for ALL pairs of configurations.",
+        "Little-endian host (big-endian option only checked for equivalence); cetl/pmr flavours not executed; one recorded "
+        "finding (float16 tie rounding C/C++ vs Python) in known_findings.json.",
+        "DESIGN.md section 3, C03",
+    ),
+    "C04": (
+        "model_checking",
+        "explicit enumeration of operation histories on one real destination object in ASan/UBSan/LSan builds + buffer-size / invalid-object exploration",
+        "Sanitizer builds of the generated C (two option sets) and C++14 (built-in variant) / C++17 (std::variant) codecs are "
+        "driven with every byte string of C02 from an exactly-sized heap block, every output buffer size 0..max+1, objects with "
+        "counts/tags outside their range, and ALL sequences (depth 2 quick / 3 thorough) of des/ser (C++: copy, assign, "
+        "move) operations on one object from zeroed and poisoned prior states; after every step the dump must equal the dump "
+        "of a fresh decode, return codes must be documented ones, no sanitizer or leak report may appear. The array-capacity "
+        "override is exercised with reduced capacities k in {1, cap-1}.",
+        "gcc 12 ASan/UBSan/LSan (clang 14 in thorough) are the oracle for memory safety; histories bounded in depth and "
+        "alphabet (<=5 encodings per type); trap representations of bool are never fed (harness UB).",
+        "DESIGN.md section 3, C04",
+    ),
     "C14": (
         "exploration",
         "bounded-exhaustive enumeration of primitive calls in compiled drivers (ASan/UBSan) vs bit-at-a-time reference",
